@@ -1,4 +1,5 @@
 import Starcal.Props.C01
+import Starcal.HijriT4
 /-! # C02 — consecutive day numbers map to consecutive calendar dates
 
 `Props.succ c` is the calendar successor computed from the library's own month lengths
@@ -224,5 +225,47 @@ theorem Consecutive.date_order {c : Cal} (h : Consecutive c) (a b : Int) :
         exact lexLt_irrefl _ (lexLt_trans hl this)
 
 example : lexLt (calGprol.jdTo 1721425) (calGprol.jdTo 1721426) := by unfold lexLt; decide
+
+/-! ### hijri in month-table mode (partial: the two table seams are open known findings) -/
+
+/-- **C02 for hijri in month-table mode, partial**: for every day number except five (the day
+    before and the last day of the 29-day start seam, and the three days before the day-0 dates of
+    the end seam) the date of day n+1 is the successor of the date of day n by the month lengths the
+    library reports in this mode; and every date produced is well-formed except on four days -/
+theorem C02_hijri_table_partial (jd : Int) :
+    (jd ≠ 2453441 ∧ jd ≠ 2453469 ∧ jd ≠ 2459702 ∧ jd ≠ 2459731 ∧ jd ≠ 2459761 →
+      calHijT.jdTo (jd + 1) = succ calHijT (calHijT.jdTo jd)) ∧
+    (jd ≠ 2453470 ∧ jd ≠ 2459703 ∧ jd ≠ 2459732 ∧ jd ≠ 2459762 → WF calHijT (calHijT.jdTo jd)) := by
+  constructor
+  · intro hne
+    have h := HijriT.hijri_table_succ_partial jd hne
+    have hjd : ∀ j, calHijT.jdTo j = ((HijriT.jdToT j).year, (HijriT.jdToT j).month, (HijriT.jdToT j).day) := fun _ => rfl
+    have hml : calHijT.monthLen = HijriT.monthLenT := rfl
+    have hsk : calHijT.skipYear0 = false := rfl
+    rw [hjd, hjd, h]
+    generalize HijriT.jdToT jd = d
+    rcases d with ⟨y, m, dd⟩
+    unfold succ HijriT.succT
+    simp only [hml, hsk, Bool.false_eq_true, false_and, if_false]
+    by_cases h1 : dd < HijriT.monthLenT y m <;> by_cases h2 : m < 12 <;> simp [h1, h2]
+  · intro hne
+    have h := HijriT.hijri_table_wf_partial jd hne
+    unfold HijriT.wfT at h
+    simp only [Bool.and_eq_true, decide_eq_true_eq] at h
+    have hjd : calHijT.jdTo jd = ((HijriT.jdToT jd).year, (HijriT.jdToT jd).month, (HijriT.jdToT jd).day) := rfl
+    have hml : calHijT.monthLen = HijriT.monthLenT := rfl
+    have hsk : calHijT.skipYear0 = false := rfl
+    rw [hjd]
+    generalize HijriT.jdToT jd = d at h ⊢
+    rcases d with ⟨y, m, dd⟩
+    unfold WF
+    rw [hml, hsk]
+    exact ⟨fun hh => Bool.noConfusion hh, h.1.1.1, h.1.1.2, h.1.2, h.2⟩
+
+/-- the excluded days are real: the model reproduces the failures by kernel evaluation -/
+theorem C02_hijri_table_seam_witness :
+    (HijriT.rangeI 2453400 100).filter (fun jd => decide (HijriT.jdToT (jd + 1) ≠ HijriT.succT (HijriT.jdToT jd))) = [2453441, 2453469] ∧
+    (HijriT.rangeI 2459650 160).filter (fun jd => decide (HijriT.jdToT (jd + 1) ≠ HijriT.succT (HijriT.jdToT jd))) = [2459702, 2459731, 2459761] :=
+  ⟨HijriT.start_zone_successor, HijriT.end_zone_successor⟩
 
 end Starcal.Props
